@@ -47,6 +47,13 @@ theorem seqOpQuiet_internal (O : Orders) (m : Mgr) (k : Nat) (op : SOp) :
   · rfl
   · simp [Mgr.logOp, setBox_internal]
 
+theorem seqOpQuiet_parked (O : Orders) (m : Mgr) (k : Nat) (op : SOp) :
+    (m.seqOpQuiet O k op).parked = m.parked := by
+  unfold Mgr.seqOpQuiet
+  split
+  · rfl
+  · simp [Mgr.logOp, setBox_parked]
+
 /-- Two quiet Part-A steps on two different sequences together with the events that belong to
 both keep the manager coherent, if the events project to each step's own events. -/
 theorem coh_joint2 {O log start keys m} (h : Coh O log start keys m) (evs : List Event)
@@ -207,12 +214,13 @@ theorem diffBranch_eq (O : Orders) (hO : GoodOrders O) (slice : Bool) (msgs enc 
     (if slice then O.diffSlice else O.diffDifference).foldl
         (Mgr.diffBranchStep O (if slice then O.diffSlice else O.diffDifference)
           (if slice then O.sliceGuard else O.diffGuard) msgs enc own rest p q) m =
-      ((((if rest.isEmpty then m else m.applyCombined O rest).emit ((if (msgs ++ enc ++ own).isEmpty then [] else [Event.dispatch ((msgs ++ enc ++ own).map (·.id))])
-            ++ [.storeState p q])).seqOpQuiet O 0
+      (((((if rest.isEmpty then m else m.applyCombined O rest).emit ((if (msgs ++ enc ++ own).isEmpty then [] else [Event.dispatch ((msgs ++ enc ++ own).map (·.id))])
+            ++ [.storeState p q])).setSeqNow).seqOpQuiet O 0
           (.seq diffShape p ((msgs ++ own).filter (·.seqKey == some 0)))).seqOpQuiet O 1
           (.seq diffShape q ((enc ++ own).filter (·.seqKey == some 1)))) := by
-  have hfold : ∀ m' : Mgr, O.diffSetState.foldl (fun (m : Mgr) c => if c = Call.storeState then m.emit [.storeState p q] else m) m'
-      = m'.emit [.storeState p q] := by
+  have hfold : ∀ m' : Mgr, O.diffSetState.foldl (fun (m : Mgr) c => if c = Call.storeState then m.emit [.storeState p q]
+      else if c = Call.boxSetSeq then m.setSeqNow else m) m'
+      = (m'.emit [.storeState p q]).setSeqNow := by
     intro m'; rw [hO.diffSetState]; simp [List.foldl]
   cases slice with
   | false =>
@@ -231,7 +239,7 @@ theorem minv_world {O log keys org start m} (h : MInv O log keys org start m) (w
   simp only [World.static, Prod.mk.injEq] at hs
   obtain ⟨hl, hp, hq, hc, hpe, hcr⟩ := hs
   refine ⟨coh_world h.coh w (by rw [hl]; exact h.coh.hlog), by rw [← h.p0]; exact hp, by rw [← h.q0]; exact hq, ?_,
-    h.queues, h.internal, ?_, ?_⟩
+    h.queues, h.internal, ?_, ?_, h.parked⟩
   · intro c hk
     rw [← h.c0 c hk]
     show World.chanInit w c = World.chanInit m.w c
@@ -387,7 +395,7 @@ theorem minv_diffJoint {O log keys org start m} (hO : GoodOrders O) (hS : Scn lo
         · subst h1
           simp only [h0, if_false, if_true, sstep, callEvs_diffShape, f1]
         · rw [fk k h0 h1]; simp [h0, h1])
-  refine ⟨hcoh, ?_, ?_, ?_, ?_, ?_, ?_, ?_⟩
+  refine ⟨hcoh, ?_, ?_, ?_, ?_, ?_, ?_, ?_, ?_⟩
   · rw [seqOpQuiet_w, seqOpQuiet_w]; exact h.p0
   · rw [seqOpQuiet_w, seqOpQuiet_w]; exact h.q0
   · intro c hc; rw [seqOpQuiet_w, seqOpQuiet_w]; exact h.c0 c hc
@@ -395,6 +403,9 @@ theorem minv_diffJoint {O log keys org start m} (hO : GoodOrders O) (hS : Scn lo
   · rw [seqOpQuiet_internal, seqOpQuiet_internal]; exact h.internal
   · rw [seqOpQuiet_w, seqOpQuiet_w]; exact h.startP
   · rw [seqOpQuiet_w, seqOpQuiet_w]; exact h.startC
+  · rw [seqOpQuiet_parked, seqOpQuiet_parked]; exact h.parked
+
+theorem emit_setSeqNow (m : Mgr) (evs : List Event) : (m.emit evs).setSeqNow = (m.setSeqNow).emit evs := rfl
 
 /-- One common difference answer of kind `diff`, applied: foreign other-updates are re-routed
 (they do not touch the pts/qts boxes), then the joint step. -/
@@ -416,11 +427,13 @@ theorem minv_diffBranch {O log keys org start m} (hO : GoodOrders O) (hS : Scn l
     obtain ⟨h1, h2⟩ := List.mem_filter.1 he
     exact ⟨by rw [← hw0l]; exact commonDiff_others_sub w0 _ _ msgs enc others p q slice hans e h1, by simpa using h2⟩
   by_cases hre : (others.filter (fun e => !ownCommon e)).isEmpty = true
-  · rw [if_pos hre]
-    exact minv_diffJoint hO hS h w0 hw0l hw0p hw0q msgs enc others p q slice hans
-  · rw [if_neg hre]
+  · rw [if_pos hre, emit_setSeqNow]
+    exact minv_diffJoint hO hS (minv_setSeqNow h) w0 hw0l hw0p hw0q msgs enc others p q slice hans
+  · rw [if_neg hre, emit_setSeqNow]
     have h' := minv_applyCombined hO hS h _ (fun e he => (hrest e he).1)
     have hb := applyCombined_common_boxes O m _ (fun e he => (hrest e he).2)
-    exact minv_diffJoint hO hS h' w0 hw0l hw0p hw0q msgs enc others p q slice (by rw [hb.1, hb.2]; exact hans)
+    exact minv_diffJoint hO hS (minv_setSeqNow h') w0 hw0l hw0p hw0q msgs enc others p q slice
+      (by show (w0.commonDiff (m.applyCombined O _).pts.state (m.applyCombined O _).qts.state).2 = _
+          rw [hb.1, hb.2]; exact hans)
 
 end TdModel.C02Core
